@@ -1,5 +1,6 @@
 // Copyright 2018-2024 the Deno authors. All rights reserved. MIT license.
 
+use crate::context::Context;
 use deno_ast::swc::ast::{
   ArrowExpr, BigInt, BindingIdent, BlockStmt, Bool, CallExpr, Class,
   ComputedPropName, Constructor, Expr, Function, Ident, IdentName, JSXText,
@@ -10,12 +11,11 @@ use deno_ast::swc::common::DUMMY_SP;
 use deno_ast::swc::ecma_visit::{VisitMut, VisitMutWith};
 use deno_ast::swc::utils::{find_pat_ids, ident::IdentLike};
 use deno_ast::view::{self as ast_view};
-use deno_ast::Scope;
 
 /// Extracts regex string from an expression, using ScopeManager.
 /// If the passed expression is not regular expression, this will return `None`.
 pub(crate) fn extract_regex(
-  scope: &Scope,
+  ctx: &Context,
   expr_ident: &ast_view::Ident,
   expr_args: &[&ast_view::ExprOrSpread],
 ) -> Option<String> {
@@ -23,7 +23,9 @@ pub(crate) fn extract_regex(
     return None;
   }
 
-  if scope.var(&expr_ident.inner.to_id()).is_some() {
+  if expr_ident.ctxt() != ctx.unresolved_ctxt()
+    || ctx.scope().var(&expr_ident.inner.to_id()).is_some()
+  {
     return None;
   }
 
